@@ -45,6 +45,58 @@ class Chooser:
         return [k for (_n, _f, k) in self.points]
 
 
+class Pruned(Exception):
+    """the execution reached a canonical state whose futures are explored from its first visit"""
+
+
+class StatefulChooser(Chooser):
+    """explicit-state variant: the harness reports a canonical state hash before every choice point; beyond the replayed prefix
+    an already seen state ends the execution (its successors are explored from the first visit)"""
+
+    __slots__ = ("seen", "visited_new")
+
+    def __init__(self, prefix, seen):
+        super().__init__(prefix)
+        self.seen = seen
+        self.visited_new = 0
+
+    def visit(self, state_hash):
+        if len(self.choices) < len(self.prefix):
+            return
+        if state_hash in self.seen:
+            raise Pruned()
+        self.seen.add(state_hash)
+        self.visited_new += 1
+
+
+def explore_states(run_and_check, res, max_states=200000):
+    """exhaustive explicit-state search: run_and_check(ch, res) must call ch.visit(hash) before each ch.choose() and let Pruned
+    propagate.  Every alternative at every choice point is explored (no deviation bound); terminates when no new state appears."""
+    seen = set()
+    stack = [()]
+    while stack:
+        prefix = stack.pop()
+        ch = StatefulChooser(prefix, seen)
+        try:
+            run_and_check(ch, res)
+            res.traces += 1
+        except Pruned:
+            res.count("executions_pruned_at_seen_state")
+        res.transitions += len(ch.choices) - len(ch.prefix) if len(ch.choices) > len(ch.prefix) else 0
+        res.max_depth = max(res.max_depth, len(ch.choices))
+        plen = len(prefix)
+        for i in range(plen, len(ch.choices)):
+            n = ch.points[i][0]
+            base = tuple(ch.choices[:i])
+            for alt in range(1, n):
+                stack.append(base + (alt,))
+        if len(seen) > max_states:
+            res.cap(f"state cap {max_states}")
+            break
+    res.states += len(seen)
+    return len(seen)
+
+
 def children(ch, bound):
     """prefixes that deviate from execution `ch` at one point after its own prefix, within the bound"""
     out = []
